@@ -25,6 +25,7 @@ RULE = (
     "oracle computed from the bytes alone: split on 0x0A, strip one CR, strict UTF-8, stdlib json, independent JSON-RPC grammar -> expected message sequence (and notification sub-sequence), "
     "plus a liveness probe line at the end; non-trivial = a cut falls inside a multi-byte character or inside CRLF, or a junk line sits between two valid lines, or a separator-like "
     "character occurs inside a JSON string; distinct = distinct (stream, cuts, delivery)"
+    "; added in rounds 6-7 of the seeded changes: junk lines that begin with a whole document; a line just below/above 1 and 4 MiB (thorough: 8, 16) in three read patterns"
 )
 ASSUMPTIONS = [
     "a JSON array line is a batch (C13's subject): only [] and arrays of scalars are used as junk here",
